@@ -91,8 +91,10 @@ class SdkDriver:
                     fn(va, lambda c: self.run(body))
         elif k == "loop":
             n, form, body = s[1], s[2], s[3]
+            start, step = (s[4], s[5]) if len(s) > 4 else (0, 1)
+            stop = start + n * step
             if form == "ctx":
-                with conn.loop(n) as i:
+                with conn.loop(stop, start, step) as i:
                     self.loops.append({"i": i, "elt": None})
                     try:
                         self.run(body)
@@ -105,7 +107,7 @@ class SdkDriver:
                         self.run(body)
                     finally:
                         self.loops.pop()
-                conn.loop_body(fn, stop=n)
+                conn.loop_body(fn, stop=stop, start=start, step=step)
         elif k == "foreach":
             with self.arrays[s[1]].foreach() as v:
                 self.loops.append({"i": None, "elt": v})
